@@ -16,7 +16,9 @@ RULE = ('PDUs fed to a bound session, one at a time, framing consistent (command
         'perturbations, invalid TON/NPI/status/data_coding values, non-ASCII and missing terminators, UDHI with short or '
         'inconsistent headers, undecodable text per data coding), delivery receipts with arbitrary and malformed text, foreign '
         'shapes of C04, random bodies; default alphabets gsm0338 / ucs2 / ascii / latin_1. After every PDU a valid enquire_link '
-        'must still be answered. Stream cases with inconsistent framing (length field larger / smaller than the octets, '
+        'must still be answered. Stateful batches: segmented and plain messages are submitted and accepted first, then receipts for '
+        'their segments arrive in any order, twice, for unknown ids, with the id in the text or in the parameter only. '
+        'Stream cases with inconsistent framing (length field larger / smaller than the octets, '
         'truncation at every offset, garbage) are judged by the predicate only. distinct-nontrivial = distinct (command id, '
         'origin of the PDU, model action, observed action)')
 TRUSTED = ['Lean 4.33.0 kernel', 'axioms: propext, Quot.sound, Classical.choice',
@@ -35,12 +37,23 @@ def known_enum():
     return ({int(c) for c in SmppCommand}, {int(s) for s in SmppCommandStatus}, {int(k) for k in COMMAND_RESPONSE_MAP})
 
 
-def batch(pdus, default, tags):
-    """feed the PDUs one at a time to a bound session; returns per PDU the observation"""
+def batch(pdus, default, tags, presubmit=None):
+    """feed the PDUs one at a time to a bound session; returns per PDU the observation.
+    presubmit: texts of messages the application sends first (the scripted SMSC accepts every PDU of them under the
+    ids id1, id2, ...), so that the inbound PDUs meet a correlator that holds state"""
     s = Sim(enquire_link_interval=1e6, socket_timeout=5.0, default_encoding=default)
     obs = []
     try:
         async def env():
+            if presubmit:
+                from aiosmpplib.protocol import SubmitSm
+                for _ in range(400):
+                    if s.esme.session_state.name.startswith('BOUND') and s.esme._bound.is_set():
+                        break
+                    await asyncio.sleep(0.01)
+                for i, text in enumerate(presubmit):
+                    s.enqueue(SubmitSm(short_message=text, auto_message_payload=False, log_id='P%d' % i, encoding='gsm0338'))
+                await asyncio.sleep(1.0)
             for p in pdus:
                 # wait until bound
                 for _ in range(400):
@@ -229,6 +242,42 @@ def generate(rng, tier):
                 yield Case('# opaque ' + line, '# opaque ' + line, sig, fail, inp)
             else:
                 yield Case(line, real, sig, fail, inp)
+    # inbound PDUs meeting a correlator that holds state: segmented and plain messages were submitted and accepted
+    # (ids id1, id2, ...), then receipts arrive for their segments in any order, twice, for unknown ids, between other PDUs
+    for _ in range(12 if thorough else 4):
+        default = rng.choice(('gsm0338', 'gsm0338', 'ucs2'))
+        nsegs = [rng.choice((1, 2, 2, 3)) for _ in range(rng.randrange(1, 4))]
+        texts = ['hello' if n == 1 else 'x' * (254 * (n - 1) + 20) for n in nsegs]
+        total = sum(nsegs)
+        ids = ['id%d' % (i + 1) for i in range(total)]
+        order = ids[:] + [rng.choice(ids), 'nosuchid']
+        rng.shuffle(order)
+        items = []
+        for k, mid in enumerate(order):
+            err = rng.choice((0, 0, 0, 17))
+            how = rng.randrange(3)
+            text = 'id:%s sub:001 dlvrd:001 submit date:2501011200 done date:2501011201 stat:DELIVRD err:%03d text:x' % (mid, err)
+            extra = b''
+            if how == 1:        # id only in the receipted_message_id parameter
+                text = text[len('id:%s ' % mid):]
+                extra = struct.pack('!HH', 0x001E, len(mid) + 1) + mid.encode() + b'\x00'
+            body = b'\x00' * 7 + b'\x04' + b'\x00' * 6 + b'\x00\x00' + bytes([len(text)]) + text.encode() + extra
+            items.append((pdu(5, 0, 0x9000 + k, body), 'receipt-stateful'))
+            if rng.random() < 0.3:
+                items.extend(gen_pdus(rng, 1))
+        obs, early, exc = batch([p for p, _ in items], default, [t for _, t in items], presubmit=texts)
+        for (p, tag), o in zip(items, obs):
+            fail = predicate(p, o, cmds, stats, reqs)
+            real = show_action(o, p)
+            line = 'rx %s %s' % (L.enc_triple(default), p.hex())
+            ln, cmd, st, seq = struct.unpack('!IIII', p[:16])
+            sig = ('rx', '%08x' % cmd if cmd in cmds else 'unknown-cmd', tag, real.split(' ')[0] + (real.split(' ')[1][-3:] if ' ' in real else ''))
+            inp = {'op': 'rx-stateful', 'default': default, 'presubmit': texts, 'pdus': [q.hex() for q, _ in items],
+                   'index': items.index((p, tag))}
+            if _opaque(p):
+                yield Case('# opaque ' + line, '# opaque ' + line, sig, fail, inp)
+            else:
+                yield Case(line, real, sig, fail, inp)
     # streams with inconsistent framing: predicate only
     for _ in range(30 if thorough else 8):
         yield stream_case(rng)
@@ -306,6 +355,14 @@ def replay(inp):
     cmds, stats, reqs = known_enum()
     if inp.get('op') == 'stream':
         return stream_case(None, fixed=(inp['kind'], inp['hex']))
+    if inp.get('op') == 'rx-stateful':
+        pdus = [bytes.fromhex(h) for h in inp['pdus']]
+        obs, early, exc = batch(pdus, inp['default'], ['replay'] * len(pdus), presubmit=inp['presubmit'])
+        i = min(inp['index'], len(obs) - 1)
+        fail = predicate(pdus[i], obs[i], cmds, stats, reqs)
+        if early and fail is None:
+            fail = 'start() ended (%s)' % exc
+        return Case('rx %s %s' % (L.enc_triple(inp['default']), pdus[i].hex()), show_action(obs[i], pdus[i]), None, fail, inp)
     p = bytes.fromhex(inp['hex'])
     obs, early, exc = batch([p], inp['default'], ['replay'])
     fail = predicate(p, obs[0], cmds, stats, reqs)
